@@ -2,10 +2,14 @@
 
 Decides: (a) no exception class can propagate from the wired receive callback closure (GN router ->
 verify service -> BTP router -> CAM/DENM/VAM reception -> LDM adaptation -> clustering) out of either
-receive loop, (b) no handler that catches such an exception leaves the loop, (c) nothing escapes the
-thread function itself, (d) the raw link layer's address filter (own unicast, or broadcast not sent by us).
-Does not decide: "processed exactly as if the bad frame had never been received" (state left behind by a
-half-processed frame is value level), termination of third-party parsers.
+receive loop, (b) no handler that catches such an exception leaves the loop and no handler inside the loops can
+raise by itself, (c) nothing escapes the thread function itself, (d) the raw link layer's address filter (own
+unicast, or broadcast not sent by us) as an implication between guard formulas, (e) in every GeoNetworking
+receive handler no content-dependent rejection (decode / range / division error not caught in the handler) can
+follow the first change of router or location-table state - a frame discarded for what it contains has not
+touched the state before.
+Does not decide: full state equivalence "as if the bad frame had never been received" beyond (e), termination
+of third-party parsers.
 """
 from __future__ import annotations
 
